@@ -487,10 +487,9 @@ func TestC05_ChunkedSplice(t *testing.T) {
 		payload := c05Fill(seed, n)
 		segs := c05Cuts(rt, "seg", n, []int{chunk - 1, chunk, chunk + 1, 2 * chunk})
 		rd := rapid.SampledFrom([]int{512, 4096, 65536, 1 << 20}).Draw(rt, "readChunk")
-		sockBuf := rapid.SampledFrom([]int{0, 0, 4096, 65536}).Draw(rt, "sockBuf")
-		if sockBuf == 4096 && n > 300<<10 {
-			sockBuf = 65536
-		}
+		// (4 KiB buffers make the kernel crawl on payloads of this size: window far below
+		// the loopback MSS -> persist-timer pace; 64 KiB still gives partial rounds)
+		sockBuf := rapid.SampledFrom([]int{0, 0, 65536}).Draw(rt, "sockBuf")
 		cn, err := c05TCPConnsBuf(rapid.Bool().Draw(rt, "v6"), sockBuf)
 		if err != nil {
 			rt.Fatalf("harness: loopback sockets unavailable: %v", err)
